@@ -102,6 +102,7 @@ type inventory struct {
 	Rewrites    map[string]int `json:"rewrites"`
 	Warnings    []string       `json:"warnings"`
 	Unmodelled  []string       `json:"unmodelled_sync"`
+	GoStmts     []string       `json:"go_statements"`
 	Unsupported []string       `json:"unsupported"`
 }
 
@@ -302,6 +303,31 @@ func (m *loader) headerAccesses(pi *pkgInfo, s ast.Stmt) (locs []string, writes 
 	return
 }
 
+// headerHasAtomic: does the statement itself (not its nested blocks or
+// function literals) call into sync/atomic?
+func (m *loader) headerHasAtomic(pi *pkgInfo, s ast.Stmt) bool {
+	found := false
+	ast.Inspect(s, func(n ast.Node) bool {
+		if found {
+			return false
+		}
+		switch x := n.(type) {
+		case *ast.FuncLit:
+			return false
+		case *ast.BlockStmt:
+			return ast.Node(x) == ast.Node(s)
+		case *ast.CallExpr:
+			if sel, ok := x.Fun.(*ast.SelectorExpr); ok {
+				if fn, ok := pi.info.Uses[sel.Sel].(*types.Func); ok && fn.Pkg() != nil && fn.Pkg().Path() == "sync/atomic" {
+					found = true
+				}
+			}
+		}
+		return true
+	})
+	return found
+}
+
 func (m *loader) instrList(pi *pkgInfo, list []ast.Stmt) []ast.Stmt {
 	var out []ast.Stmt
 	for _, s := range list {
@@ -317,6 +343,12 @@ func (m *loader) instrList(pi *pkgInfo, list []ast.Stmt) []ast.Stmt {
 		for _, loc := range locs {
 			id := newSite("access", m.rel(s.Pos()), loc, writes[loc])
 			out = append(out, accessStmt(id, loc, writes[loc]))
+		}
+		if m.headerHasAtomic(pi, inner) {
+			// an atomic operation is a point where another task may be scheduled
+			loc := "atomic@" + m.rel(s.Pos())
+			id := newSite("atomic", m.rel(s.Pos()), loc, false)
+			out = append(out, accessStmt(id, loc, false))
 		}
 		m.instrStmt(pi, s)
 		out = append(out, s)
@@ -431,7 +463,7 @@ func (m *loader) rewriteCalls(pi *pkgInfo, f *ast.File) {
 	ast.Inspect(f, func(n ast.Node) bool {
 		switch x := n.(type) {
 		case *ast.GoStmt:
-			m.unsupported(x.Pos(), "go statement")
+			inv.GoStmts = append(inv.GoStmts, m.rel(x.Pos()))
 		case *ast.SendStmt:
 			m.unsupported(x.Pos(), "channel send")
 		case *ast.SelectStmt:
@@ -487,6 +519,8 @@ func (m *loader) rewriteCalls(pi *pkgInfo, f *ast.File) {
 				w = rwMethods[fn.Name()]
 			case strings.HasSuffix(rt, "sync.Once") && fn.Name() == "Do":
 				w = "OnceDo"
+			case strings.HasSuffix(rt, "sync.WaitGroup"):
+				w = map[string]string{"Add": "WGAdd", "Done": "WGDone", "Wait": "WGWait"}[fn.Name()]
 			}
 			if w == "" && (strings.HasSuffix(rt, "sync.Map") || strings.HasSuffix(rt, "sync.Pool")) {
 				// never block; internally synchronised; the own HB monitor does not model their edges
@@ -534,6 +568,68 @@ func (m *loader) rewriteCalls(pi *pkgInfo, f *ast.File) {
 				}
 			}
 			m.unsupported(sel.Pos(), "unrewritten use of sync."+fn.Name())
+		}
+		return true
+	})
+}
+
+// rewriteGoStmts turns `go f(a, b)` into
+//
+//	{ simF, simA0, simA1 := f, a, b; simrt.Go(func() { simF(simA0, simA1) }) }
+//
+// (function value and arguments are evaluated at the go statement, as Go does)
+// and `go func() { ... }()` into simrt.Go(func() { ... }).
+func (m *loader) rewriteGoStmts(pi *pkgInfo, f *ast.File) {
+	var fix func(list []ast.Stmt) []ast.Stmt
+	conv := func(gs *ast.GoStmt) ast.Stmt {
+		call := gs.Call
+		if fl, ok := call.Fun.(*ast.FuncLit); ok && len(call.Args) == 0 {
+			return &ast.ExprStmt{X: simCall("Go", fl)}
+		}
+		var lhs, rhs []ast.Expr
+		fn := ast.NewIdent("simGoF_")
+		lhs = append(lhs, fn)
+		rhs = append(rhs, call.Fun)
+		var args []ast.Expr
+		for i, a := range call.Args {
+			id := ast.NewIdent("simGoA" + strconv.Itoa(i) + "_")
+			lhs = append(lhs, id)
+			rhs = append(rhs, a)
+			args = append(args, id)
+		}
+		inner := &ast.CallExpr{Fun: fn, Args: args, Ellipsis: call.Ellipsis}
+		if call.Ellipsis.IsValid() {
+			inner.Ellipsis = 1
+		}
+		body := &ast.BlockStmt{List: []ast.Stmt{&ast.ExprStmt{X: inner}}}
+		lit := &ast.FuncLit{Type: &ast.FuncType{Params: &ast.FieldList{}}, Body: body}
+		return &ast.BlockStmt{List: []ast.Stmt{
+			&ast.AssignStmt{Lhs: lhs, Tok: token.DEFINE, Rhs: rhs},
+			&ast.ExprStmt{X: simCall("Go", lit)},
+		}}
+	}
+	fix = func(list []ast.Stmt) []ast.Stmt {
+		for i, st := range list {
+			if gs, ok := st.(*ast.GoStmt); ok {
+				list[i] = conv(gs)
+				inv.Rewrites["go"]++
+			} else if ls, ok := st.(*ast.LabeledStmt); ok {
+				if gs, ok := ls.Stmt.(*ast.GoStmt); ok {
+					ls.Stmt = conv(gs)
+					inv.Rewrites["go"]++
+				}
+			}
+		}
+		return list
+	}
+	ast.Inspect(f, func(n ast.Node) bool {
+		switch x := n.(type) {
+		case *ast.BlockStmt:
+			x.List = fix(x.List)
+		case *ast.CaseClause:
+			x.Body = fix(x.Body)
+		case *ast.CommClause:
+			x.Body = fix(x.Body)
 		}
 		return true
 	})
@@ -648,6 +744,7 @@ func main() {
 			}
 			m.rewriteCalls(pi, f)
 			m.rewriteMapRanges(pi, f)
+			m.rewriteGoStmts(pi, f)
 			for _, d := range f.Decls {
 				if fd, ok := d.(*ast.FuncDecl); ok && fd.Body != nil {
 					curFunc = pi.pkg.Name() + "." + fd.Name.Name
